@@ -15,6 +15,22 @@ SWAP = {"Lt": "Gt", "Gt": "Lt", "Le": "Ge", "Ge": "Le", "Eq": "Eq", "Ne": "Ne"}
 SYM = {"Lt": "<", "Le": "<=", "Gt": ">", "Ge": ">=", "Eq": "==", "Ne": "!="}
 
 
+def _copy_root(f, local, limit=8):
+    """Follow `x = move y` single definitions back to the local that was
+    actually assigned."""
+    for _ in range(limit):
+        if 1 <= local <= f.arg_count:
+            return local
+        sd = f.single_def(local)
+        if sd is None or sd[2] != "rv" or sd[3][0] != "use" or not mir.is_place_operand(sd[3][1]):
+            return local
+        pl = mir.op_place(sd[3][1])
+        if pl[1]:
+            return local
+        local = pl[0]
+    return local
+
+
 def var_of(f, op, depth=0):
     """Resolve an operand to a term:
        ('const', v) | ('var', local) | ('sub', term, term) | ('add', term, term)
@@ -32,14 +48,20 @@ def var_of(f, op, depth=0):
         import ops as _ops
         src = _ops.try_chain_source(f, op)
         if src is not None and any(p != "*" and p[0] == "d" for p in projs):
+            if (src.res or "").split("::")[-1] == "len":
+                return ("len", src.bb, src.argtys[0] if src.argtys else "")
             return ("call", src.res, src.bb)
         # payload of an Option local built by `Some(x)` on one path
         nd = [p for p in projs if p != "*"]
-        if len(nd) == 2 and nd[0][0] == "d" and nd[0][1] == "Some" and nd[1][0] == "f":
-            somes = [payload for (b2, i2, kind, payload) in f.defs().get(local, [])
-                     if kind == "rv" and payload[0] == "agg" and payload[1].get("variant") == "Some"]
-            if len(somes) == 1 and somes[0][2]:
-                return var_of(f, somes[0][2][0], depth + 1)
+        if len(nd) == 2 and nd[0][0] == "d" and nd[1][0] == "f":
+            # (also of any other enum local built by one `V(x)` per variant,
+            # possibly handed on through plain copies: the result slot of an
+            # inlined `arity() -> Arity`)
+            src = _copy_root(f, local)
+            built = [payload for (b2, i2, kind, payload) in f.defs().get(src, [])
+                     if kind == "rv" and payload[0] == "agg" and payload[1].get("variant") == nd[0][1]]
+            if len(built) == 1 and nd[1][1] < len(built[0][2]):
+                return var_of(f, built[0][2][nd[1][1]], depth + 1)
         # field of a tuple produced by *WithOverflow: handled by caller
         base = var_of(f, ["cp", [local, []]], depth + 1)
         first = [p for p in projs if p != "*"]
@@ -172,25 +194,35 @@ def selector_guard_of(f, bb, max_up=64):
         if f.term(cur)["k"] != "switch":
             continue
         info = f.switch_info(cur)
-        if not info or info["kind"] != "discr" or not info["enum"].startswith("std::option::Option<"):
+        if not info or info["kind"] != "discr":
             continue
         pl = info["place"]
         if pl[1]:
             continue
-        some_t = dict(info["cases"]).get("Some", info["otherwise"])
-        none_t = dict(info["cases"]).get("None", info["otherwise"])
+        # a two-variant enum local assigned one aggregate per variant
+        # (`Option` from a flag; the `Arity` an inlined accessor answers)
+        src = _copy_root(f, pl[0])
+        vs = []
+        bad = False
+        for (b2, i2, kind, payload) in f.defs().get(src, []):
+            if kind == "rv" and payload[0] == "agg" and payload[1].get("is_enum"):
+                vs.append((payload[1]["variant"], b2))
+            else:
+                bad = True
+        names = sorted(set(v for v, _ in vs))
+        if bad or len(vs) != 2 or len(names) != 2:
+            continue
+        v1 = "Some" if "Some" in names else names[0]
+        v0 = [n for n in names if n != v1][0]
+        some_t = dict(info["cases"]).get(v1, info["otherwise"])
+        none_t = dict(info["cases"]).get(v0, info["otherwise"])
         if some_t == none_t:
             continue
         on_some, on_none = f.dominates(some_t, bb), f.dominates(none_t, bb)
         if on_some == on_none:
             continue
-        sdefs, ndefs = [], []
-        for (b2, i2, kind, payload) in f.defs().get(pl[0], []):
-            if kind == "rv" and payload[0] == "agg" and payload[1].get("adt") == "std::option::Option":
-                (sdefs if payload[1]["variant"] == "Some" else ndefs).append(b2)
-            else:
-                sdefs = ndefs = None
-                break
+        sdefs = [b2 for v, b2 in vs if v == v1]
+        ndefs = [b2 for v, b2 in vs if v == v0]
         if not sdefs or not ndefs or len(sdefs) != 1 or len(ndefs) != 1:
             continue
         gs, gn = flag_guard_of(f, sdefs[0]), flag_guard_of(f, ndefs[0])
